@@ -66,11 +66,12 @@ def cfg_json(cfg):
     return {"s": s, "mw": list(cfg["mw"]), "h": dict(cfg["h"]), "hasUpload": cfg["hasUpload"]}
 
 
-def run_labels(cfg, labels, seed, want=None, drain=False):
+def run_labels(cfg, labels, seed, want=None, drain=False, lenient_timer=False):
     """Execute a label sequence on the real protocol; returns list of steps [{a,p?,o}] (observation after each).
     If `want` is given and the final observation differs, the execution is continued by ConnHarness.drain()
     (every waiting task completes, connection_lost is delivered) so that the observation spec can judge it."""
     h = ConnHarness(cfg, seed=seed)
+    h.lenient_timer = lenient_timer
     steps = []
     try:
         for a, args in labels:
@@ -386,6 +387,62 @@ def real_components(rep, rnd, n):
     return traces
 
 
+def resegmentations(cfg, acts):
+    """Variants of an action sequence that differ ONLY in how maximal runs of consecutive Data actions are segmented
+    (merged into one read / split at every cut point of the stream): same bytes, same instants, other reads."""
+    cuts = sorted(cfg["s"]["cuts"])
+    out = []
+    for mode in ("merged", "split"):
+        new = []
+        delivered = 0
+        i = 0
+        while i < len(acts):
+            a, p = acts[i]
+            if a != "Data":
+                new.append((a, p))
+                i += 1
+                continue
+            j = i
+            while j + 1 < len(acts) and acts[j + 1][0] == "Data":
+                j += 1
+            last = acts[j][1]
+            if mode == "merged":
+                new.append(("Data", last))
+            else:
+                new += [("Data", c) for c in cuts if delivered < c <= last]
+                if not new or new[-1] != ("Data", last):
+                    new.append(("Data", last))
+            delivered = last
+            i = j + 1
+        if new != list(acts):
+            out.append((mode, new))
+    return out
+
+
+def differential(tr, seed):
+    """C07 is relational: the same bytes at the same instants under another segmentation must give the same outcome.
+    Returns a description of the first differing pair, or None."""
+    cfg = dict(tr["cfg"])
+    cfg["mw"] = tuple(cfg["mw"])
+    acts = [(s_["a"], s_.get("p")) for s_ in tr["steps"] if not s_.get("drain")]
+
+    def outcome(seq):
+        steps = run_labels(cfg, [(a, (p,) if a == "Data" else ()) for a, p in seq], seed, drain=True, lenient_timer=True)
+        if any("error" in s_ for s_ in steps) or not steps:
+            return None
+        o = steps[-1]["o"]
+        return {"wire": o["wire"], "h": o["h"], "u": o["u"]}
+    base = outcome(acts)
+    if base is None:
+        return None
+    for mode, seq in resegmentations(tr["cfg"], acts):
+        alt = outcome(seq)
+        if alt is not None and alt != base:
+            return "reads %s give %s, the same bytes at the same instants %s as %s give %s" % (
+                [(a, p) for a, p in acts], base, mode, [(a, p) for a, p in seq], alt)
+    return None
+
+
 def binding_selftest(rep, rnd):
     """Demonstrate that the trace spec constrains: corrupt one logged field / drop one event of accepted
     traces and require rejection."""
@@ -473,6 +530,7 @@ def main(pid, rep=None, finish=True):
             groups.setdefault(key, sp)
         cap = list(groups.values())[:3000]
         verdicts = obs_verdicts([s[2] for s in cap], rep)
+        ndiff = 0
         for (kind, full, tr), bad in zip(cap, verdicts):
             mine = sorted(bad & own)
             err = [s for s in full.get("steps", []) if "error" in s]
@@ -484,6 +542,15 @@ def main(pid, rep=None, finish=True):
             else:
                 if kind == "real-component" and not bad:
                     continue          # conforming executions of the real components
+                if pid == "C07" and kind != "real-component" and ndiff < 400:
+                    # C07 is relational: whatever else is wrong, re-segmenting the same bytes must not change the outcome
+                    ndiff += 1
+                    d = differential(tr, rep.seed)
+                    if d:
+                        rep.violation({"formula": "SegIndep", "differential": True, "cls": tr["cfg"]["s"]["cls"]},
+                                      "SegIndep falsified (differential; other formulas falsified: %s): cfg=%s: %s" % (
+                                          sorted(bad), json.dumps(tr["cfg"]), d), full)
+                        continue
                 rep.drifted("%s execution departs from the model (other formulas falsified: %s%s): cfg=%s actions=%s" % (
                     kind, sorted(bad) or "none", "; action not performable: %s" % err[0]["error"] if err else "",
                     json.dumps(tr["cfg"]), full.get("labels") or [(s["a"], s.get("p")) for s in tr["steps"]]))
